@@ -124,7 +124,8 @@ def finish(ck, prog, explanation, not_decided, extra_cov=None):
         else:
             new_viol.append(v)
 
-    os.makedirs(os.path.join(VERIF, 'evidence', 'replay'), exist_ok=True)
+    EVD = os.environ.get('VERIF_EVIDENCE_DIR') or os.path.join(VERIF, 'evidence')
+    os.makedirs(os.path.join(EVD, 'replay'), exist_ok=True)
     print('property %s tier=%s: %d units, %d functions analysed; %d rule instances over %d rules; %d canaries flagged' % (
         pid, ck.tier, len(prog.units), len(prog.funcs), len(ck.instances), len(counts), len(ck.canaries)))
     for rule in sorted(ck.rules_doc):
@@ -137,7 +138,7 @@ def finish(ck, prog, explanation, not_decided, extra_cov=None):
         print('KNOWN-FINDING: property=%s %s [%s %s %s]' % (pid, k['what'], v.rule, v.func, v.loc))
     rc = 0
     for n, v in enumerate(new_viol):
-        rp = os.path.join(VERIF, 'evidence', 'replay', '%s_%s_%d.json' % (pid, v.rule.replace('.', '_'), n))
+        rp = os.path.join(EVD, 'replay', '%s_%s_%d.json' % (pid, v.rule.replace('.', '_'), n))
         with open(rp, 'w') as fh:
             json.dump({'property': pid, 'instance': v.as_dict(),
                        'rule_text': ck.rules_doc.get(v.rule, ''),
@@ -196,10 +197,9 @@ def finish(ck, prog, explanation, not_decided, extra_cov=None):
         'wall_s': round(time.time() - ck.t0, 2),
         'violations': len(new_viol),
     }
-    with open(os.path.join(VERIF, 'evidence', pid + '.json.tmp.%d' % os.getpid()), 'w') as fh:
+    with open(os.path.join(EVD, pid + '.json.tmp.%d' % os.getpid()), 'w') as fh:
         json.dump(ev, fh, indent=1)
-    os.replace(os.path.join(VERIF, 'evidence', pid + '.json.tmp.%d' % os.getpid()),
-               os.path.join(VERIF, 'evidence', pid + '.json'))
+    os.replace(os.path.join(EVD, pid + '.json.tmp.%d' % os.getpid()), os.path.join(EVD, pid + '.json'))
     print('%s: %s (%d obligations, %d hold, %d known findings, %d new violations, %d inconclusive) in %.1fs' % (
         pid, {0: 'OK', 1: 'VIOLATION', 2: 'ANALYSIS-BROKEN'}[rc], len(ck.instances), cov['discharged'],
         len(known_hit), len(new_viol), len(inc), time.time() - ck.t0))
